@@ -170,7 +170,7 @@ KEY_GUID_CONTRACT = """
             r is Err ==> *final(a) == old(a).read_failed(),
 """
 UPDATE_KEY_CONTRACT = """
-        requires may_publish(*fs, *h, dir, key),  // @C08.update_key.only_an_attested_or_locally_found_key_is_published
+        requires may_publish(*fs, *h, dir, key),  // @C08+C10.update_key.only_an_attested_or_locally_found_key_is_published
         ensures
             r is Ok ==> *final(a) == old(a).did(KkState { key: Some(key), ..old(a).s }, Mut::Key(Some(key))),
             r is Err ==> *final(a) == old(a).call_failed(final(a).s, Mut::Key(Some(key))),
@@ -199,7 +199,7 @@ ACQUIRE_CONTRACT = """
             r is Err ==> *final(h) == (Host { acquire_calls: old(h).acquire_calls + 1, ..*old(h) }),
 """
 ATTEST_CONTRACT = """
-        requires may_attest(*fs, *old(h), dir, *key),  // @C08.attest_key.only_after_stored_and_read_back_identically
+        requires may_attest(*fs, *old(h), dir, *key),  // @C08+C10.attest_key.only_after_stored_and_read_back_identically
         ensures
             r is Ok ==> *final(h) == (Host { attested: Some(*key), attest_calls: old(h).attest_calls + 1, ..*old(h) }),
             r is Err ==> *final(h) == (Host { attest_calls: old(h).attest_calls + 1, ..*old(h) }),
